@@ -19,6 +19,7 @@ type OpOptions struct {
 	Typename       bool
 	Variables      bool
 	Mutation       bool
+	ForceMutation  bool
 	VarDefaults    bool // client-declared default values relied upon
 	DirectiveVars  bool // @skip/@include(if: $v)
 	Directives     bool // @skip/@include with literal values
@@ -288,7 +289,7 @@ func Operation(rng *rand.Rand, schema *ast.Schema, opt OpOptions) GenOp {
 	g := &opGen{rng: rng, schema: schema, opt: opt, vals: map[string]interface{}{}, feat: map[string]bool{}, fragOf: map[string]string{}}
 	kind := "query"
 	root := schema.Query
-	if opt.Mutation && schema.Mutation != nil && rng.Intn(4) == 0 {
+	if schema.Mutation != nil && (opt.ForceMutation || (opt.Mutation && rng.Intn(4) == 0)) {
 		kind, root = "mutation", schema.Mutation
 	}
 	depth := 1 + rng.Intn(opt.MaxDepth)
